@@ -190,6 +190,8 @@ impl<'a> Tr<'a> {
                         return Ok((lines, Ty::Never, true));
                     }
                 }
+                // a stray `;` (empty statement)
+                Stmt::Expr(Expr::Verbatim(ts), _) if ts.is_empty() => {}
                 Stmt::Expr(e, semi) => {
                     if is_last && semi.is_none() {
                         // a plain block / unsafe block in tail position: inline its statements
